@@ -157,3 +157,67 @@ pub fn long_history<B: RealBook>(seed: u64, n_ops: usize) -> Result<LongOut, Str
     out.trades = rf.trades.len() as u64;
     Ok(out)
 }
+
+// ---------------------------------------------------------------------------------------------------------------
+// Huge batches: one step that carries tens of thousands of instructions (C08: every one applied exactly once at its
+// own time-stamp; C14: across assets; C15: submission blocks against position blocks).
+// ---------------------------------------------------------------------------------------------------------------
+use crate::envlib::SimEnv;
+use crate::model::NEW;
+use rand_xoshiro::rand_core::SeedableRng;
+use rand_xoshiro::Xoroshiro128StarStar;
+
+pub struct HugeOut {
+    pub n: usize,
+    /// table[submission block][position block], 8 x 8
+    pub table: [[u64; 8]; 8],
+    /// per asset: instructions of that asset per position block
+    pub asset_table: Vec<[u64; 8]>,
+}
+
+pub fn huge_step<E: SimEnv>(seed: u64, n: usize) -> Result<HugeOut, (String, String)> {
+    let mut rng = Sm::derive(seed, 0x4855);
+    let assets = E::ASSETS;
+    let ticks: Vec<u32> = (0..assets).map(|_| rng.range(1, 10) as u32).collect();
+    let t0 = rng.below(1000);
+    let step_size = n as u64 + rng.below(1000);
+    let mut env = E::create(t0, &ticks, step_size, true);
+    let mut ids: Vec<(usize, usize)> = Vec::with_capacity(n);
+    for _ in 0..n {
+        let a = rng.below(assets as u64) as usize;
+        let bid = rng.chance(0.5);
+        let k = if bid { rng.range(10, 40) } else { rng.range(60, 90) };
+        let r = env.place(a, bid, rng.range(1, 9) as u32, rng.below(100) as u32, Some((k * ticks[a] as u64) as u32)).map_err(|e| ("harness".to_string(), e))?;
+        ids.push(r);
+    }
+    let mut xr = Xoroshiro128StarStar::seed_from_u64(rng.next());
+    crate::util::catch(|| env.do_step(&mut xr)).map_err(|p| ("panic_in_step".to_string(), p))?;
+    if env.time() != t0 + step_size {
+        return Err(("clock_after_step".into(), format!("start {} step size {} clock {}", t0, step_size, env.time())));
+    }
+    let orders: Vec<Vec<crate::model::ROrder>> = (0..assets).map(|a| env.env_orders(a)).collect();
+    let mut seen = vec![false; n];
+    let mut out = HugeOut { n, table: [[0; 8]; 8], asset_table: vec![[0; 8]; assets] };
+    for (i, (a, id)) in ids.iter().enumerate() {
+        let o = &orders[*a][*id];
+        if o.status == NEW {
+            return Err(("instruction_not_processed".into(), format!("batch of {} new orders: the {}-th submitted order ({}, {}) is still New after the step", n, i, a, id)));
+        }
+        if o.arr < t0 || o.arr >= t0 + n as u64 {
+            return Err(("time_stamp_outside_batch".into(), format!("batch of {}: order ({}, {}) arrived at {} (start {})", n, a, id, o.arr, t0)));
+        }
+        let pos = (o.arr - t0) as usize;
+        if seen[pos] {
+            return Err(("two_instructions_at_one_time_stamp".into(), format!("batch of {}: two orders arrived at {}", n, o.arr)));
+        }
+        seen[pos] = true;
+        out.table[i * 8 / n][pos * 8 / n] += 1;
+        out.asset_table[*a][pos * 8 / n] += 1;
+    }
+    if let Some(p) = env.pending() {
+        if !p.is_empty() {
+            return Err(("queue_not_empty_after_step".into(), format!("{} instructions left", p.len())));
+        }
+    }
+    Ok(out)
+}
